@@ -243,6 +243,41 @@ class SymEval:
             return s
         raise Unsupported('matmul ranks')
 
+    def einsum(self, spec, a, b):
+        spec = spec.replace(' ', '')
+        ins, out = spec.split('->')
+        ia, ib = ins.split(',')
+        a, b = self.to_array(a), self.to_array(b)
+        ia, ib, out = ia.replace('...', ''), ib.replace('...', ''), out.replace('...', '')
+        if len(ia) != len(a.shape) or len(ib) != len(b.shape):
+            raise Unsupported('einsum ranks %s %s vs %s %s' % (ia, ib, a.shape, b.shape))
+        dims = {}
+        for letters, arr in ((ia, a), (ib, b)):
+            for l, d in zip(letters, arr.shape):
+                if dims.setdefault(l, d) != d:
+                    raise Unsupported('einsum dimension mismatch on %s' % l)
+        summed = [l for l in dims if l not in out]
+        A = self.A
+        res = SArray(tuple(dims[l] for l in out), {}, None, a.sample or b.sample)
+
+        def rec(letters, assign):
+            if not letters:
+                yield dict(assign)
+                return
+            for i in range(dims[letters[0]]):
+                assign[letters[0]] = i
+                yield from rec(letters[1:], assign)
+        for oidx in res.indices():
+            base = dict(zip(out, oidx))
+            s = A.const(0)
+            for asg in rec(summed, dict(base)):
+                s = A.add(s, A.mul(a.get(tuple(asg[l] for l in ia)),
+                                   b.get(tuple(asg[l] for l in ib))))
+            res.entries[oidx] = s
+        if not out:
+            return res.entries[()]
+        return res
+
     def transpose(self, a):
         if not isinstance(a, SArray):
             return a
@@ -557,7 +592,7 @@ class SymEval:
                 if hv is not None:
                     return hv
             v = self.repo.fold_fq(q)
-            if isinstance(v, (int, float)) and not isinstance(v, bool) and self.const_symbolic:
+            if isinstance(v, float) and self.const_symbolic:
                 short = q[len('pyins.'):] if q.startswith('pyins.') else q
                 if short == 'transform.DEG_TO_RAD':
                     return self.A.sym(self.A.D2R)
@@ -614,6 +649,10 @@ class SymEval:
                 return base.name if base.name is not None else Opaque('name')
             if a in ('copy', 'to_frame', 'transpose', 'loc', 'iloc'):
                 return Bound(base, a)
+            if a == 'shape':
+                return (1, len(base.cols)) if base.kind == 'frame' else (len(base.cols),)
+            if a == 'columns':
+                return list(base.cols)
             raise Unsupported('column %s missing' % a)
         if isinstance(base, SArray):
             if a == 'T':
@@ -1115,7 +1154,9 @@ class SymEval:
         if isinstance(obj, Rec):
             if name == 'copy':
                 return Rec(dict(obj.cols), obj.kind, obj.name, obj.index)
-            if name in ('to_frame', 'transpose'):
+            if name == 'to_frame':
+                return Rec(obj.cols, 'frame', obj.name, obj.index)
+            if name == 'transpose':
                 return obj
         if isinstance(obj, (Rat, int, float)) and name in ('copy', 'reshape'):
             return obj
@@ -1187,6 +1228,8 @@ class SymEval:
             raise Unsupported('sum with axis')
         if q == 'numpy.transpose':
             return self.transpose(args[0])
+        if q == 'numpy.einsum' and isinstance(args[0], str) and len(args) == 3:
+            return self.einsum(args[0], args[1], args[2])
         if q == 'numpy.ix_':
             return Opaque('ix', *args)
         if q == 'numpy.arange':
